@@ -959,3 +959,85 @@ package geom
 //@   modifies nothing
 //@   loop 1 `for _, pp := range mp`
 //@     invariant [count] 0 <= #1 && #1 <= len(mp)
+
+//@ -- ------------------------------------------------------------ C10: Transform
+//@ spec txPt(t proj.Transformer, p Point) Point = Point(TX(t, p.X, p.Y), TY(t, p.X, p.Y))
+//@ opaque pred okPts(t proj.Transformer, l []Point) = forall k int :: 0 <= k && k < len(l) ==> TE(t, l[k].X, l[k].Y) == nil
+//@ pred firstErrAt(t proj.Transformer, l []Point, k int) = 0 <= k && k < len(l) && TE(t, l[k].X, l[k].Y) != nil && (forall m int :: 0 <= m && m < k ==> TE(t, l[m].X, l[m].Y) == nil)
+//@ opaque pred txPts(t proj.Transformer, l []Point, o []Point) = len(o) == len(l) && (forall k int :: 0 <= k && k < len(l) ==> biteq(o[k], txPt(t, l[k])))
+
+//@ func (p Point) Transform
+//@   prop C10
+//@   mode ufloat
+//@   ensures [nil_identity] t == nil ==> result1 == nil && typeof(result0) == Point && biteq(result0.(Point), p)
+//@   ensures [pointwise] t != nil ==> result1 == TE(t, p.X, p.Y) && typeof(result0) == Point && biteq(result0.(Point), txPt(t, p))
+//@   modifies nothing
+
+//@ func (mp MultiPoint) Transform
+//@   prop C10
+//@   mode ufloat
+//@   ensures [nil_identity] t == nil ==> result1 == nil && typeof(result0) == MultiPoint && result0.(MultiPoint) == mp
+//@   ensures [pointwise] t != nil && okPts(t, mp) ==> result1 == nil && typeof(result0) == MultiPoint && fresh(result0.(MultiPoint)) && txPts(t, mp, result0.(MultiPoint))
+//@   ensures [first_error] t != nil ==> (forall k int :: firstErrAt(t, mp, k) ==> result0 == nil && result1 == TE(t, mp[k].X, mp[k].Y))
+//@   modifies nothing
+//@   loop 1 `for i, p := range mp`
+//@     invariant [prefix] t != nil && 0 <= #1 && #1 <= len(mp) && fresh(mp2) && len(mp2) == len(mp) && (forall k int :: 0 <= k && k < #1 ==> TE(t, mp[k].X, mp[k].Y) == nil && biteq(mp2[k], txPt(t, mp[k])))
+
+//@ func (l LineString) Transform
+//@   prop C10
+//@   mode ufloat
+//@   ensures [nil_identity] t == nil ==> result1 == nil && typeof(result0) == LineString && result0.(LineString) == l
+//@   ensures [pointwise] t != nil && okPts(t, l) ==> result1 == nil && typeof(result0) == LineString && fresh(result0.(LineString)) && txPts(t, l, result0.(LineString))
+//@   ensures [first_error] t != nil ==> (forall k int :: firstErrAt(t, l, k) ==> result0 == nil && result1 == TE(t, l[k].X, l[k].Y))
+//@   ensures [error_nil_result] result1 != nil ==> result0 == nil
+//@   ensures [ok_means_ok] result1 == nil ==> typeof(result0) == LineString && (t != nil ==> okPts(t, l))
+//@   modifies nothing
+//@   loop 1 `for i, p := range l`
+//@     invariant [prefix] t != nil && 0 <= #1 && #1 <= len(l) && fresh(l2) && len(l2) == len(l) && (forall k int :: 0 <= k && k < #1 ==> TE(t, l[k].X, l[k].Y) == nil && biteq(l2[k], txPt(t, l[k])))
+
+//@ opaque pred okPtss(t proj.Transformer, p []Path) = forall k int :: 0 <= k && k < len(p) ==> okPts(t, p[k])
+//@ opaque pred txPtss(t proj.Transformer, p []Path, o []Path) = len(o) == len(p) && (forall k int :: 0 <= k && k < len(p) ==> fresh(o[k]) && txPts(t, p[k], o[k]))
+
+//@ func (p Polygon) Transform
+//@   prop C10
+//@   mode ufloat
+//@   ensures [nil_identity] t == nil ==> result1 == nil && typeof(result0) == Polygon && result0.(Polygon) == p
+//@   ensures [pointwise] t != nil && okPtss(t, p) ==> result1 == nil && typeof(result0) == Polygon && fresh(result0.(Polygon)) && txPtss(t, p, result0.(Polygon))
+//@   ensures [error_nil_result] result1 != nil ==> result0 == nil && t != nil && !okPtss(t, p)
+//@   ensures [ok_means_ok] t != nil && result1 == nil ==> okPtss(t, p)
+//@   modifies nothing
+//@   loop 1 `for i, r := range p`
+//@     invariant [rings] t != nil && 0 <= #1 && #1 <= len(p) && fresh(p2) && len(p2) == len(p) && (forall k int :: 0 <= k && k < #1 ==> okPts(t, p[k]) && fresh(p2[k]) && txPts(t, p[k], p2[k]))
+//@   loop 2 `for j, pp := range r`
+//@     invariant [pts] 0 <= #2 && #2 <= len(r) && fresh(p2) && len(p2) == len(p) && fresh(p2[#1]) && len(p2[#1]) == len(r) && (forall k int :: 0 <= k && k < #1 ==> okPts(t, p[k]) && fresh(p2[k]) && txPts(t, p[k], p2[k])) && (forall m int :: 0 <= m && m < #2 ==> TE(t, r[m].X, r[m].Y) == nil && biteq(p2[#1][m], txPt(t, r[m])))
+
+//@ func (ml MultiLineString) Transform
+//@   prop C10
+//@   mode ufloat
+//@   ensures [nil_identity] t == nil ==> result1 == nil && typeof(result0) == MultiLineString && result0.(MultiLineString) == ml
+//@   ensures [pointwise] t != nil && (forall k int :: 0 <= k && k < len(ml) ==> okPts(t, ml[k])) ==> result1 == nil && typeof(result0) == MultiLineString && fresh(result0.(MultiLineString)) && len(result0.(MultiLineString)) == len(ml) && (forall k int :: 0 <= k && k < len(ml) ==> txPts(t, ml[k], result0.(MultiLineString)[k]))
+//@   ensures [error_nil_result] result1 != nil ==> result0 == nil
+//@   modifies nothing
+//@   loop 1 `for i, l := range ml`
+//@     invariant [members] t != nil && 0 <= #1 && #1 <= len(ml) && fresh(ml2) && len(ml2) == len(ml) && (forall k int :: 0 <= k && k < #1 ==> okPts(t, ml[k]) && fresh(ml2[k]) && txPts(t, ml[k], ml2[k]))
+
+//@ func (mp MultiPolygon) Transform
+//@   prop C10
+//@   mode ufloat
+//@   ensures [nil_identity] t == nil ==> result1 == nil && typeof(result0) == MultiPolygon && result0.(MultiPolygon) == mp
+//@   ensures [shape] t != nil && result1 == nil ==> typeof(result0) == MultiPolygon && fresh(result0.(MultiPolygon)) && len(result0.(MultiPolygon)) == len(mp)
+//@   ensures [last_member] t != nil && result1 == nil && len(mp) >= 1 ==> txPtss(t, mp[len(mp)-1], result0.(MultiPolygon)[len(mp)-1])
+//@   ensures [error_nil_result] result1 != nil ==> result0 == nil
+//@   modifies nothing
+//@   loop 1 `for i, p := range mp`
+//@     invariant [members] t != nil && 0 <= #1 && #1 <= len(mp) && fresh(mp2) && len(mp2) == len(mp) && (#1 >= 1 ==> txPtss(t, mp[#1-1], mp2[#1-1]))
+//@   assert [member_pointwise] `mp2[i] = g.(Polygon)` typeof(g) == Polygon && fresh(g.(Polygon)) && okPtss(t, p) && txPtss(t, p, g.(Polygon))
+
+//@ func (b *Bounds) Transform
+//@   prop C10
+//@   mode ufloat
+//@   requires [nonnil] b != nil
+//@   ensures [nil_identity] t == nil ==> result1 == nil && typeof(result0) == *Bounds && result0.(*Bounds) == b
+//@   ensures [polygon] t != nil && result1 == nil ==> typeof(result0) == Polygon && len(result0.(Polygon)) == 1 && len(result0.(Polygon)[0]) == 4 && biteq(result0.(Polygon)[0][0], txPt(t, b.Min)) && biteq(result0.(Polygon)[0][1], txPt(t, Point(b.Max.X, b.Min.Y))) && biteq(result0.(Polygon)[0][2], txPt(t, b.Max)) && biteq(result0.(Polygon)[0][3], txPt(t, Point(b.Min.X, b.Max.Y)))
+//@   ensures [error_nil_result] result1 != nil ==> result0 == nil
+//@   modifies nothing
